@@ -29,7 +29,7 @@ def run(tier: str) -> Check:
     from ..linesem import check_lines
 
     repo = Repo()
-    n, bad = check_lines(repo, "src/pest/pairs.py")
+    n, bad = check_lines(repo, "src/pest/pairs.py", thorough=tier == "thorough")
     check.count("line_model_points", n)
     cats: dict[str, list[str]] = {}
     for cat, msg in bad:
